@@ -330,6 +330,63 @@ func main(a uint16, b uint16) (uint8, uint16, int8, bool) {
 }`,
 }
 
+type pgStructTemplate struct {
+	src    string
+	inputs func(rng *rand.Rand) ([]string, []string)
+}
+
+func pgHex(rng *rand.Rand, nbytes int) string {
+	s := "0x"
+	for i := 0; i < nbytes; i++ {
+		s += fmt.Sprintf("%02x", rng.Intn(256))
+	}
+	return s
+}
+
+// main takes and returns structs, arrays of arrays and booleans (compound arguments: one input per member)
+var pgStructTemplates = []pgStructTemplate{
+	{`package main
+type In struct {
+	x uint8
+	y int16
+	f [2]uint8
+}
+func main(a In, b In) (In, bool, [2]uint8) {
+	var r In
+	r.x = a.x + b.x
+	r.y = a.y - b.y
+	r.f[0] = a.f[1]
+	r.f[1] = b.f[0] + a.x
+	return r, a.y > b.y, b.f
+}`, func(rng *rand.Rand) ([]string, []string) {
+		one := func() []string {
+			return []string{fmt.Sprint(rng.Intn(256)), fmt.Sprint(rng.Intn(65536) - 32768), pgHex(rng, 2)}
+		}
+		return one(), one()
+	}},
+	{`package main
+type P struct {
+	flag bool
+	v uint13
+}
+func main(a P, b [2][2]uint8) ([2][2]uint8, P, uint13) {
+	var m [2][2]uint8
+	m[0][0] = b[1][1]
+	m[0][1] = b[0][1] + uint8(a.v)
+	m[1][0] = b[1][0]
+	m[1][1] = b[0][0]
+	var q P
+	q.flag = !a.flag
+	q.v = a.v + uint13(b[0][0])
+	if a.flag {
+		q.v = q.v + 1
+	}
+	return m, q, q.v * a.v
+}`, func(rng *rand.Rand) ([]string, []string) {
+		return []string{[]string{"true", "false"}[rng.Intn(2)], fmt.Sprint(rng.Intn(8192))}, []string{pgHex(rng, 4)}
+	}},
+}
+
 // programs with one huge step circuit (more than 65536 circuit wires while all permanent ids are small)
 var pgWideTemplates = []string{
 	`package main
